@@ -36,6 +36,9 @@ func runC18(c *an.Ctx) {
 	r18j(c)
 	// round 8
 	r18k(c)
+	// round 9
+	r18l(c)
+	r18m(c)
 }
 
 func r18a(c *an.Ctx) {
@@ -587,6 +590,10 @@ func messageOnly(v ssa.Value, seen map[ssa.Value]bool) bool {
 		// the branch conditions selecting the edges
 		return true
 	case *ssa.Call:
+		// membership of a message value in a literal list of constants
+		if el, _, isSet := an.ConstSetContains(x); isSet {
+			return messageOnly(el, seen)
+		}
 		n := an.MethodName(&x.Call)
 		pure := strings.HasPrefix(n, "Get") || n == "String" || n == "len"
 		if cal := x.Call.StaticCallee(); cal != nil && cal.Pkg != nil {
